@@ -31,20 +31,32 @@ theorem scale_keys : Gen.Time.scaleTable.map (·.1) = ["ns", "us", "µs", "ms", 
 
 theorem unitOrder_eq : Gen.Time.unitOrder =
     ["ns", "us", "µs", "ms", "s", "m", "h", "d"] := rfl
+/-
+  The texts below are NORMAL FORMS (py/verif/translate/c11_norm.py): accumulation loops are written as
+  `sum((term for v in iter), init)`, single-assigned locals are replaced by their definitions, the locals that
+  survive (`sign`) and comprehension variables are renamed `_v0…` / `_c0…`, and a pinned text occurring inside
+  another one is shown as ‹name›.  So `‹units›` is the alternation built from
+  `sorted(cls.scale.keys(), key=len, reverse=True)` (the model's `unitAt`: two-letter units first), the
+  validating and the extracting regex are the model's `parseItems`, `‹total›` is `itemsSeconds` times the sign.
+-/
 theorem unitsPatternExpr_eq : Gen.Time.unitsPatternExpr =
-    "'(?:' + '|'.join(map(re.escape, valid_units)) + ')'" := rfl
+    "'(?:' + '|'.join(map(re.escape, sorted(cls.scale.keys(), key=len, reverse=True))) + ')'" := rfl
 theorem durationPat_eq : Gen.Time.durationPat =
-    "f'^[-+]?([0-9]*(\\\\.[0-9]*)?{units_pattern})+$'" := rfl
+    "f'^[-+]?([0-9]*(\\\\.[0-9]*)?{‹units›})+$'" := rfl
 theorem finditerPat_eq : Gen.Time.finditerPat =
-    "f'([0-9]*(\\\\.[0-9]*)?)({units_pattern})'" := rfl
+    "f'([0-9]*(\\\\.[0-9]*)?)({‹units›})'" := rfl
 theorem durTotalExpr_eq : Gen.Time.durTotalExpr =
-    "sign * sum((Fraction(n_u.group(1)) * Fraction(cls.scale[n_u.group(3)]).limit_denominator(cls.NanosecondsPerSecond) for n_u in re.finditer(f'([0-9]*(\\\\.[0-9]*)?)({units_pattern})', seconds)), Fraction(0))" := rfl
+    "_v0 * sum((Fraction(_c0.group(1)) * Fraction(cls.scale[_c0.group(3)]).limit_denominator(cls.NanosecondsPerSecond) for _c0 in re.finditer(‹finditerPat›, seconds)), Fraction(0))" := rfl
+/-- the sign is consumed (and stripped from `seconds`) before the components are summed -/
+theorem durSignBeforeTotal_eq : Gen.Time.durSignBeforeTotal = true := rfl
+/-- the sum is computed under `except KeyError` only (a bad number is a `ValueError` of `Fraction`) -/
+theorem durTotalHandlers_eq : Gen.Time.durTotalHandlers = ["KeyError"] := rfl
 theorem durNewTests_eq : Gen.Time.durNewTests =
     ["isinstance(seconds, datetime.timedelta)", "isinstance(seconds, int)", "isinstance(seconds, str)", "else"] := rfl
 theorem durRaiseTests_eq : Gen.Time.durRaiseTests =
-    ["not datetime.timedelta(seconds=cls.MinSeconds) <= seconds <= datetime.timedelta(seconds=cls.MaxSeconds)", "not cls.MinSeconds <= seconds <= cls.MaxSeconds", "not duration_match", "not cls.MinSeconds <= total <= cls.MaxSeconds"] := rfl
+    ["not datetime.timedelta(seconds=cls.MinSeconds) <= seconds <= datetime.timedelta(seconds=cls.MaxSeconds)", "not cls.MinSeconds <= seconds <= cls.MaxSeconds", "not re.compile(‹durationPat›).match(seconds)", "not cls.MinSeconds <= ‹total› <= cls.MaxSeconds"] := rfl
 theorem durCtorCalls_eq : Gen.Time.durCtorCalls =
-    ["super().__new__(cls, days=seconds.days, seconds=seconds.seconds, microseconds=seconds.microseconds)", "super().__new__(cls, seconds=seconds, microseconds=nanos // 1000)", "super().__new__(cls, microseconds=round(total * 1000000))"] := rfl
+    ["super().__new__(cls, days=seconds.days, seconds=seconds.seconds, microseconds=seconds.microseconds)", "super().__new__(cls, seconds=seconds, microseconds=nanos // 1000)", "super().__new__(cls, microseconds=round(‹total› * 1000000))"] := rfl
 theorem tsAddBody_eq : Gen.Time.tsAddBody =
     "result_value = super().__add__(other)\nif result_value == NotImplemented:\n    return NotImplemented\nreturn TimestampType(result_value)" := rfl
 theorem tsRaddBody_eq : Gen.Time.tsRaddBody =
@@ -91,6 +103,15 @@ theorem accessors_eq (c : Civil) : ∀ a : Acc,
     (lookupAcc (accName a) Gen.Time.accessors).bind (evalA c) = some (accField a c) := by
   intro a
   cases a <;> simp [lookupAcc, accName, Gen.Time.accessors, evalA, accField, Option.bind] <;> omega
+
+def lookupStr (k : String) : List (String × String) → Option String
+  | [] => none
+  | (k', v) :: r => if k' = k then some v else lookupStr k r
+
+/-- the CEL function `getX` (evaluation.py `base_functions` → `function_getX`) hands the timestamp and the zone
+argument to the `TimestampType` method of the same name, with nothing in between -/
+theorem accessor_wrappers : ∀ a : Acc, lookupStr (accName a) Gen.Time.accessorWrappers = some (accName a) := by
+  intro a; cases a <;> rfl
 
 /-- the classes the arithmetic raises are evaluation errors of the interpreter's `addition` rule -/
 theorem addition_handlers :
